@@ -264,6 +264,8 @@ def run_real(case):
     rec = mrun.run(spec, setup=mon.attach)
     viols = list(mon.viols)
     counts = e2e.base_counts(rec)
+    if case["idx"] % 10 == 0:
+        viols += e2e.audit(spec, rec, counts)
     counts.update({"quiescent_checks": mon.n_q, "centre_checks": mon.n_centre,
                    "replace_checks": mon.n_replace,
                    "resolution_reductions": mon.reductions})
